@@ -473,6 +473,13 @@ class PathEngine:
                     b[kw.arg] = kw.value
             if is_method and params and isinstance(node.func, ast.Attribute):
                 b[params[0]] = node.func.value
+            # an omitted parameter has its default: literal flags decide their
+            # branches in the callee (`if zero_first:` with zero_first=True)
+            a = target.node.args
+            pos = a.posonlyargs + a.args
+            for p_, d in list(zip(pos[len(pos) - len(a.defaults):], a.defaults)) + [(k, d) for k, d in zip(a.kwonlyargs, a.kw_defaults) if d is not None]:
+                if p_.arg not in b and isinstance(d, ast.Constant) and not any(k.arg is None for k in node.keywords) and not any(isinstance(x, ast.Starred) for x in node.args):
+                    b[p_.arg] = d
         elif isinstance(node, ast.Attribute):
             if params:
                 b[params[0]] = node.value
@@ -517,6 +524,47 @@ class PathEngine:
             sub = self._stmt_paths(st, fr)
             partial = self._seq(partial, sub)
         return partial
+
+    @staticmethod
+    def _const_test(test, fr):
+        """Truth of a test on a parameter of an inlined callee that the call
+        binds to a literal (explicitly or by default) and the callee never
+        rebinds; None when not decided."""
+        if fr.parent is None:
+            return None
+        neg = False
+        t = test
+        while isinstance(t, ast.UnaryOp) and isinstance(t.op, ast.Not):
+            t, neg = t.operand, not neg
+        val = None
+        if isinstance(t, ast.Name):
+            name, kind = t.id, "truth"
+        elif (
+            isinstance(t, ast.Compare) and len(t.ops) == 1 and isinstance(t.left, ast.Name)
+            and isinstance(t.ops[0], (ast.Is, ast.IsNot)) and isinstance(t.comparators[0], ast.Constant) and t.comparators[0].value is None
+        ):
+            name, kind = t.left.id, ("isnone" if isinstance(t.ops[0], ast.Is) else "isnotnone")
+        else:
+            return None
+        b = fr.bindings.get(name)
+        if not isinstance(b, ast.Constant):
+            return None
+        stores = getattr(fr.fi, "_stored_names", None)
+        if stores is None:
+            stores = {x.id for x in ast.walk(fr.fi.node) if isinstance(x, ast.Name) and isinstance(x.ctx, (ast.Store, ast.Del))}
+            try:
+                fr.fi._stored_names = stores
+            except Exception:  # pragma: no cover
+                pass
+        if name in stores:
+            return None
+        if kind == "truth":
+            val = bool(b.value)
+        elif kind == "isnone":
+            val = b.value is None
+        else:
+            val = b.value is not None
+        return (not val) if neg else val
 
     def _branch(self, test, taken, fr):
         return Event(
@@ -598,15 +646,18 @@ class PathEngine:
             f_paths = self._block_paths(st.orelse, fr) if st.orelse else [((), NEXT)]
             tb = self._branch(st.test, True, fr)
             fb = self._branch(st.test, False, fr)
+            decided = self._const_test(st.test, fr)
             out = []
             for e, oc in p:
                 if oc != NEXT:
                     out.append((e, oc))
                     continue
-                for e2, oc2 in t_paths:
-                    out.append((e + (tb,) + e2, oc2))
-                for e2, oc2 in f_paths:
-                    out.append((e + (fb,) + e2, oc2))
+                if decided is not False:
+                    for e2, oc2 in t_paths:
+                        out.append((e + ((tb,) if decided is None else ()) + e2, oc2))
+                if decided is not True:
+                    for e2, oc2 in f_paths:
+                        out.append((e + ((fb,) if decided is None else ()) + e2, oc2))
             self._check_budget(out)
             return out
         if isinstance(st, (ast.For, ast.AsyncFor)):
